@@ -8,6 +8,8 @@ var units = map[string]common.UnitFunc{
 	"byzrbc": unitByzRbc,
 	"c04orch": unitC04orch,
 	"byzorch": unitByzOrch,
+	"c14ctl": unitC14ctl,
+	"c14stress": unitC14stress,
 }
 
 func main() { common.ChildMain(units) }
